@@ -96,7 +96,7 @@ Qed.
 Example C13_gen_nonvacuous :
   TG.tw_contract (mkTy 4 4) (mkTy 4 4) /\ valid_ref (mkTy 4 4) (mkPtr 4096 4) /\
   valid_slice (mkTy 4 4) (mkSlice (mkPtr 4096 12) 3) /\
-  GT.wrap_slice (mkEnv (fun _ => false) (fun _ => 0)) (mkTy 4 4) (mkTy 4 2) (mkSlice (mkPtr 4096 12) 3) = Panic W_assert.
+  GT.wrap_slice (mkEnv (fun _ => false) (fun _ => 0) (fun _ _ => 0)) (mkTy 4 4) (mkTy 4 2) (mkSlice (mkPtr 4096 12) 3) = Panic W_assert.
 Proof. unfold TG.tw_contract, valid_ref, valid_slice; cbn. repeat split; try discriminate; try reflexivity; vm_compute; congruence. Qed.
 
 Print Assumptions C13_ref_identity.
